@@ -32,22 +32,24 @@ type Anchored struct {
 
 // Forge classes for signed operations.
 const (
-	ForgeNone           = ""
-	ForgeSigRandom      = "sig-random"              // right reveal, signature bytes replaced by deterministic noise
-	ForgeSigForeign     = "sig-foreign"             // right reveal, signed by another key
-	ForgeSigBitflip     = "sig-bitflip"             // right reveal, one bit of the genuine signature flipped
-	ForgePayloadAltered = "payload-altered"         // signed payload changed after signing (other next commitment / suffix)
-	ForgeRevealMismatch = "reveal-mismatch"         // reveal value of the legitimate key, signed data carries the attacker's key (self-signed)
-	ForgeOtherKey       = "other-key"               // attacker key revealed consistently with its own valid signature
-	ForgeOtherKeyClaim  = "other-key-claims-reveal" // as other-key, and the signed data additionally names the legitimate key's reveal value (revealValue member)
-	ForgeOtherDID       = "other-did"               // deactivate genuinely signed for another DID suffix
-	ForgeNoSignedData   = "no-signed-data"          // signedData member removed
-	ForgeSigTruncated   = "sig-truncated"           // signature shortened by one byte
-	ForgeSigEmpty       = "sig-empty"               // empty signature segment
+	ForgeNone               = ""
+	ForgeSigRandom          = "sig-random"                          // right reveal, signature bytes replaced by deterministic noise
+	ForgeSigForeign         = "sig-foreign"                         // right reveal, signed by another key
+	ForgeSigBitflip         = "sig-bitflip"                         // right reveal, one bit of the genuine signature flipped
+	ForgePayloadAltered     = "payload-altered"                     // signed payload changed after signing (other next commitment / suffix)
+	ForgeRevealMismatch     = "reveal-mismatch"                     // reveal value of the legitimate key, signed data carries the attacker's key (self-signed)
+	ForgeOtherKey           = "other-key"                           // attacker key revealed consistently with its own valid signature
+	ForgeOtherKeyClaim      = "other-key-claims-reveal"             // as other-key, and the signed data additionally names the legitimate key's reveal value (revealValue member)
+	ForgeMismatchClaimLegit = "reveal-mismatch-signed-legit-reveal" // reveal-mismatch, and the signed data repeats the legitimate reveal value in a revealValue member
+	ForgeMismatchClaimOwn   = "reveal-mismatch-signed-own-reveal"   // reveal-mismatch, and the signed data carries the attacker key's own reveal value in a revealValue member
+	ForgeOtherDID           = "other-did"                           // deactivate genuinely signed for another DID suffix
+	ForgeNoSignedData       = "no-signed-data"                      // signedData member removed
+	ForgeSigTruncated       = "sig-truncated"                       // signature shortened by one byte
+	ForgeSigEmpty           = "sig-empty"                           // empty signature segment
 )
 
 // AllForges lists the forgery classes applicable to every signed type.
-var AllForges = []string{ForgeSigRandom, ForgeSigForeign, ForgeSigBitflip, ForgePayloadAltered, ForgeRevealMismatch, ForgeOtherKey, ForgeOtherKeyClaim, ForgeNoSignedData, ForgeSigTruncated, ForgeSigEmpty}
+var AllForges = []string{ForgeSigRandom, ForgeSigForeign, ForgeSigBitflip, ForgePayloadAltered, ForgeRevealMismatch, ForgeOtherKey, ForgeOtherKeyClaim, ForgeMismatchClaimLegit, ForgeMismatchClaimOwn, ForgeNoSignedData, ForgeSigTruncated, ForgeSigEmpty}
 
 // Invalid-delta variants.
 const (
@@ -309,6 +311,18 @@ func NewSigned(s SignedSpec) *Op {
 		alt.RevealKey = att
 		alt.RevealValue = asm.Reveal(s.Reveal, s.Code)
 		alt.Header = nil
+		req = alt.Request()
+		d.Authorised = false
+	case ForgeMismatchClaimLegit, ForgeMismatchClaimOwn:
+		alt := *b
+		alt.RevealKey = att
+		alt.RevealValue = asm.Reveal(s.Reveal, s.Code)
+		alt.Header = nil
+		if s.Opt.Forge == ForgeMismatchClaimLegit {
+			alt.ExtraSigned = map[string]interface{}{"revealValue": asm.Reveal(s.Reveal, s.Code)}
+		} else {
+			alt.ExtraSigned = map[string]interface{}{"revealValue": asm.Reveal(att, s.Code)}
+		}
 		req = alt.Request()
 		d.Authorised = false
 	case ForgeOtherKey:
